@@ -801,7 +801,197 @@ def d_stdio_stdin_writer():
     return out
 
 
+# ---------------------------------------------------------------------------
+# typed views handed out by the request helpers (send_* functions that return a model)
+# ---------------------------------------------------------------------------
+def discover_senders() -> List[str]:
+    """module:name of every coroutine function send_* under chuk_mcp.protocol.messages annotated to return a model class."""
+    import sys
+
+    wiregen.discover()
+    out = []
+    for mname, mod in sorted(sys.modules.items()):
+        if not mname.startswith("chuk_mcp.protocol.messages") or mod is None:
+            continue
+        for n, f in sorted(vars(mod).items()):
+            if n.startswith("send_") and inspect.iscoroutinefunction(f) and f.__module__ == mname:
+                try:
+                    ret = typing.get_type_hints(f).get("return")
+                except Exception:  # noqa: BLE001
+                    continue
+                if wiregen.is_model(ret):
+                    out.append(f"{mname}:{n}")
+    return out
+
+
+def sender_fn(ref: str):
+    import importlib
+
+    mod, _, name = ref.partition(":")
+    return getattr(importlib.import_module(mod), name)
+
+
+def sender_return_class(ref: str) -> type:
+    return typing.get_type_hints(sender_fn(ref))["return"]
+
+
+# how the result object travels in the response of the few helpers that do not take it as the whole result
+RESULT_ENVELOPES: Dict[str, Callable[[Dict[str, Any], Dict[str, Any]], Dict[str, Any]]] = {
+    "send_completion_complete": lambda w, req: {"completion": w},
+    # the handshake accepts only a version it knows: the scripted server answers the version the client proposed
+    "send_initialize": lambda w, req: {**w, "protocolVersion": req["params"]["protocolVersion"]},
+    "send_initialize_with_client_tracking": lambda w, req: {**w, "protocolVersion": req["params"]["protocolVersion"]},
+}
+
+
+def sender_arg_variants(ref: str, w: Dict[str, Any]) -> List[Dict[str, Any]]:
+    """Keyword arguments for the helper: a baseline, and for every string parameter each string found at the top level of
+    the response object (a follow-up request often carries a value of the previous answer, e.g. a cursor)."""
+    fn = sender_fn(ref)
+    hints = typing.get_type_hints(fn)
+    sig = inspect.signature(fn)
+    base: Dict[str, Any] = {}
+    string_params = []
+    for name, p in sig.parameters.items():
+        if name in ("read_stream", "write_stream"):
+            continue
+        tp, optional = wiregen._strip_optional(hints.get(name, Any))
+        if name == "timeout":
+            base[name] = 5.0
+        elif tp is str:
+            string_params.append(name)
+            if p.default is inspect.Parameter.empty:
+                base[name] = "a"
+        elif p.default is not inspect.Parameter.empty:
+            continue                                        # left at its default
+        elif tp is dict or typing.get_origin(tp) in (dict, Dict):
+            base[name] = {"k": 1}
+        elif typing.get_origin(tp) is typing.Union or wiregen.is_model(tp):
+            arms = model_arms(tp)[0]
+            base[name] = wiregen.minimal(arms[0], 1) if arms else None
+        elif tp is int:
+            base[name] = 1
+        else:
+            base[name] = None
+    out = [{"label": "baseline", "kwargs": base}]
+    strings = [v for v in w.values() if isinstance(v, str)]
+    for name in string_params:
+        for sv in dict.fromkeys(["a", "other"] + strings):
+            kw = {**base, name: sv}
+            if kw != base:
+                out.append({"label": f"{name}={'<a string of the response>' if sv in strings else repr(sv)}", "kwargs": kw})
+    return out
+
+
+def op_sender(case: Dict[str, Any]) -> Dict[str, Any]:
+    from .sched import patched_uuid
+
+    ref = case["sender"]
+    fn = sender_fn(ref)
+    cls = sender_return_class(ref)
+    w = dec(case["wire"])
+    try:
+        direct = cls.model_validate(dec(case["wire"]))
+    except Exception:  # noqa: BLE001
+        return {"ok": False, "why": "not-spec-valid"}
+    envelope = RESULT_ENVELOPES.get(ref.partition(":")[2], lambda w_, req: w_)
+    sent_result: Dict[str, Any] = {}
+
+    def reply(wire):
+        if "id" in wire and "method" in wire:
+            sent_result["w"] = envelope(dec(case["wire"]), wire)
+            return {"jsonrpc": "2.0", "id": wire["id"], "result": sent_result["w"]}
+        return None
+
+    async def main():
+        return await with_responder(lambda rd, wr: fn(rd, wr, **case["kwargs"]), reply)
+
+    try:
+        with patched_uuid():
+            x, _written = on_loop(main)
+    except Exception as e:  # noqa: BLE001
+        return {"ok": False, "why": "raised", **modelops.exc_facts(e)}
+    if not modelops.is_instance(x):
+        return {"ok": False, "why": "not-typed", "type": type(x).__name__}
+    unwrapped = sent_result["w"].get("completion") if ref.endswith("send_completion_complete") else sent_result["w"]
+    dump = x.model_dump(by_alias=True, exclude_none=True)
+    problems = modelops.lossless_problems(x, unwrapped, dump)
+    ddump = cls.model_validate(unwrapped).model_dump(by_alias=True, exclude_none=True)
+    return {"ok": True, "lossless": problems, "differs_from_direct_view": modelops.first_json_diff(modelops.to_plain(ddump),
+                                                                                                  modelops.to_plain(dump))}
+
+
+def composed_sites() -> List[Dict[str, Any]]:
+    """Result-building paths that dump nothing themselves but hand out a typed object which the package's serialisers
+    then put on the wire: every public coroutine method with a model return type of every discovered *Manager / *Registry."""
+    import importlib
+
+    out = []
+    for h in modelops.discover_helpers():
+        mod, _, name = h.partition(":")
+        cls = getattr(importlib.import_module(mod), name)
+        rel = "/".join(mod.split(".")[1:]) + ".py"
+        for mname, fn in sorted(vars(cls).items()):
+            if mname.startswith("_") or not inspect.iscoroutinefunction(fn):
+                continue
+            try:
+                ret = typing.get_type_hints(fn).get("return")
+            except Exception:  # noqa: BLE001
+                ret = None
+            if ret is not None and model_arms(ret)[0]:
+                out.append({"site": f"helper:{rel}:{name}.{mname}", "calls": [{"line": 0, "code": f"returns {getattr(ret, '__name__', ret)}"}],
+                            "callers": []})
+    return out
+
+
+def d_tool_registry_call_tool():
+    """A registered handler returns a typed result - of the class call_tool is annotated with or of its namesake in the
+    messages layer (what send_tools_call hands to a forwarding tool) - a dict or a string; the registry's answer is put on
+    the wire with tool_result_to_dict."""
+    from chuk_mcp.protocol.types import tools as T
+
+    ret = typing.get_type_hints(T.ToolRegistry.call_tool)["return"]
+    out = []
+    for v in arg_variants(with_homonyms(ret)):
+        if not modelops.is_instance(v["value"]):
+            continue
+
+        async def handler(arguments, value=v["value"]):
+            return value
+
+        try:
+            reg = T.ToolRegistry()
+            reg.register_tool(T.Tool.model_validate({"name": "t", "inputSchema": {"type": "object"}}), handler)
+            res = on_loop(lambda: reg.call_tool("t", {"q": 1}))
+            # the marker member is not demanded here: whether a result builder carries unknown members over is not what
+            # part B judges (names are)
+            out.append(result(f"handler returns {v['desc']}", v["wire"], v["aliases"], plain(T.tool_result_to_dict(res)), False))
+        except Exception as e:  # noqa: BLE001
+            out.append(failed(v["desc"], e))
+    return out
+
+
+def d_roots_manager_handle_list_request():
+    from chuk_mcp.protocol.messages.roots import send_messages as M
+
+    out = []
+    insts = instances(M.Root)
+    for g in [[i] for i in insts] + [insts[:3]]:
+        desc = "roots=[" + ",".join(lbl for lbl, _, _ in g) + "]"
+        try:
+            mgr = M.RootsManager()
+            for _, _, inst in g:
+                mgr.add_root(inst)
+            resp = on_loop(lambda: mgr.handle_list_request("r-1"))
+            out.append(result(desc, [w for _, w, _ in g], [], plain(resp), any(carries_mark(i) for _, _, i in g)))
+        except Exception as e:  # noqa: BLE001
+            out.append(failed(desc, e))
+    return out
+
+
 DRIVERS: Dict[str, Callable[[], List[Dict[str, Any]]]] = {
+    "helper:protocol/types/tools.py:ToolRegistry.call_tool": d_tool_registry_call_tool,
+    "helper:protocol/messages/roots/send_messages.py:RootsManager.handle_list_request": d_roots_manager_handle_list_request,
     "protocol/types/content.py:content_to_dict": d_content_to_dict,
     "protocol/types/tools.py:tool_result_to_dict": d_tool_result_to_dict,
     "protocol/types/elicitation.py:ElicitationHandler.request_user_input": d_request_user_input,
@@ -822,7 +1012,7 @@ DRIVERS: Dict[str, Callable[[], List[Dict[str, Any]]]] = {
 # ---------------------------------------------------------------------------
 def child_hello() -> Dict[str, Any]:
     h = modelops.backend_facts()
-    h["sites"] = discover_sites()
+    h["sites"] = discover_sites() + composed_sites()
     h["drivers"] = sorted(DRIVERS)
     h["alias_pairs"] = all_alias_pairs()
     return h
@@ -838,6 +1028,8 @@ def child_handle(case: Any) -> Any:
         return modelops.op_inputmut(case)
     if op == "libedit":
         return modelops.op_libedit(case)
+    if op == "sender":
+        return op_sender(case)
     if op in ("dumporder", "methods", "eqprobe", "helper", "helpers", "shared", "unionseq"):
         return modelops.child_handle(case)
     if op == "drive":
